@@ -174,3 +174,178 @@ def long_history(acc, ops, chk, scratch, kind_name="seq", passes=("forward", "fo
     acc.transitions += len(order)
     acc.nontrivial += len(order)
     return len(order)
+
+
+# ---------------------------------------------------------------------------------------------------------------------
+# E6 - interrupted calls.  An asynchronous exception (KeyboardInterrupt, a signal handler that raises, a timeout alarm) can
+# arrive at any line of a library call.  The call itself is then lost - but the process carries on, and every LATER call
+# must still be right.  For one operation X every interruption point (line events of the library files, the first
+# `max_hits` executions of each line) is explored: X is run in a forked child, interrupted there, and the probe
+# operations are then judged by their ordinary single-case oracles.
+class Interrupted(BaseException):
+    pass
+
+
+_WX = {}
+
+
+def _with_exit_offsets(code):
+    """instruction offsets at which the NORMAL exit of a `with` block starts (LOAD None x3, CALL 2 = __exit__(None, None,
+    None)).  An asynchronous exception that lands exactly there skips __exit__ in CPython itself (the call is outside the
+    block's exception table, bpo-29988): every `with lock:` in correct code would "leak" the lock at that one point, so it
+    is not offered as an interruption point."""
+    r = _WX.get(code)
+    if r is None:
+        import dis
+        ins = list(dis.get_instructions(code))
+        r = set()
+        for i in range(len(ins) - 3):
+            a, b, c, d = ins[i:i + 4]
+            if a.opname == b.opname == c.opname == "LOAD_CONST" and a.argval is None and b.argval is None and c.argval is None \
+                    and d.opname == "CALL" and d.arg == 2:
+                r.add(a.offset)
+        _WX[code] = r
+    return r
+
+
+def _run_interrupted(chk, x, at, files, max_hits):
+    """run operation x, raising Interrupted at the at-th candidate line (at=None: only count). Returns (#candidates, fired)"""
+    import sys
+    hits = {}
+    state = {"n": 0, "fired": False}
+
+    def local(frame, event, arg):
+        if event == "line":
+            if frame.f_lasti in _with_exit_offsets(frame.f_code):
+                return local
+            k = (frame.f_code, frame.f_lineno)
+            h = hits[k] = hits.get(k, 0) + 1
+            if h <= max_hits:
+                state["n"] += 1
+                if at is not None and state["n"] == at and not state["fired"]:
+                    state["fired"] = True
+                    sys.settrace(None)
+                    raise Interrupted()
+        return local
+
+    def glob(frame, event, arg):
+        code = frame.f_code
+        if event == "call" and code.co_name != "<module>" and code.co_filename.endswith(files):
+            return local
+        return None
+    sys.settrace(glob)
+    try:
+        apply(chk, *x)
+    except Interrupted:
+        pass
+    finally:
+        sys.settrace(None)
+    return state["n"], state["fired"]
+
+
+def _wait(pid, timeout):
+    import signal
+    import time
+    t0 = time.time()
+    while True:
+        r, st = os.waitpid(pid, os.WNOHANG)
+        if r:
+            return st
+        if time.time() - t0 > timeout:
+            os.kill(pid, signal.SIGKILL)
+            os.waitpid(pid, 0)
+            return None
+        time.sleep(0.002 if time.time() - t0 < 0.2 else 0.02)
+
+
+def interrupted(acc, x, probes, chk, files, scratch, max_hits=2, kind_name="interrupted", child_timeout=60):
+    hung = []
+    rd, wr = os.pipe()
+    pid = os.fork()
+    if pid == 0:
+        os.close(rd)
+        try:
+            n, _ = _run_interrupted(chk, x, None, files, max_hits)
+            os.write(wr, str(n).encode())
+        except BaseException:
+            os.write(wr, b"-1")
+        os._exit(0)
+    os.close(wr)
+    npts = int(os.read(rd, 64) or b"-1")
+    os.close(rd)
+    os.waitpid(pid, 0)
+    if npts < 0:
+        raise RuntimeError("interrupted-call explorer: counting run failed")
+    path = os.path.join(scratch, f"intr-{os.getpid()}.jsonl")
+    fd = os.open(path, os.O_WRONLY | os.O_CREAT | os.O_TRUNC | os.O_APPEND, 0o600)
+    # probes that already fail on a fresh image are not this explorer's business
+    alone = set()
+    for j, p in enumerate(probes):
+        pid = os.fork()
+        if pid == 0:
+            code = 0
+            try:
+                code = 1 if apply(chk, *p) else 0
+            except BaseException:
+                code = 2
+            os._exit(code)
+        _, st = os.waitpid(pid, 0)
+        if os.WEXITSTATUS(st) != 0:
+            alone.add(j)
+    for at in range(1, npts + 1):
+        pid = os.fork()
+        if pid == 0:
+            code = 0
+            try:
+                _, fired = _run_interrupted(chk, x, at, files, max_hits)
+                rec = {"at": at, "fired": fired, "viol": []}
+                for j, p in enumerate(probes):
+                    if j in alone:
+                        continue
+                    try:
+                        for v in apply(chk, *p):
+                            rec["viol"].append([j, list(v)])
+                    except BaseException:
+                        rec["viol"].append([j, ["probe-raised", traceback.format_exc()[-400:]]])
+                os.write(fd, (json.dumps(rec, default=str) + "\n").encode())
+            except BaseException:
+                code = 3
+            os._exit(code)
+        st = _wait(pid, child_timeout)
+        if st is None:
+            hung.append(at)        # a probe never returned (e.g. a lock the interrupted call had taken by hand): not judged
+        elif st != 0:
+            os.write(fd, (json.dumps({"at": at, "error": f"child exit status {st}"}) + "\n").encode())
+    os.close(fd)
+    if hung:
+        acc.caps.append(f"{acc.job['name']}: after {len(hung)} of {npts} interruption points a probe did not return within {child_timeout}s "
+                        f"(points {hung[:5]}..): not judged")
+    recs = [json.loads(l) for l in open(path)]
+    os.unlink(path)
+    seen = set()
+    for r in recs:
+        if "error" in r:
+            raise RuntimeError(f"interrupted-call explorer: {r['error']} at point {r['at']}")
+        for j, (key, desc) in r["viol"]:
+            k2 = key + "/after-interrupted-call"
+            if k2 in seen:
+                continue
+            seen.add(k2)
+            acc.violation(kind_name, {"x": [x[0], x[1]], "at": r["at"], "probes": [[probes[j][0], probes[j][1]]], "files": list(files),
+                                      "max_hits": max_hits}, k2,
+                          f"correct on a fresh process image, wrong after an earlier call ({x[0]}) was interrupted by an asynchronous exception at its "
+                          f"line event {r['at']} of {npts}: {desc}")
+    acc.evaluations += npts * (1 + len(probes))
+    acc.executions += npts
+    acc.states += npts
+    acc.transitions += npts * len(probes)
+    acc.nontrivial += npts
+    return npts
+
+
+def replay_interrupted(chk, case):
+    _run_interrupted(chk, tuple(case["x"]), case["at"], tuple(case["files"]), case["max_hits"])
+    out = []
+    for p in case["probes"]:
+        out += [(k + "/after-interrupted-call", d) for k, d in apply(chk, *p)]
+    return out
